@@ -845,9 +845,9 @@ def correspondence(ctx) -> CorrResult:
     t_start = _time.time()
     rng = ctx.rng
     res = CorrResult()
-    n_models = ctx.scale(80, 3000)
+    n_models = ctx.scale(80, 2000)
     n_scen = 3
-    per_shard = ctx.scale(20, 60)
+    per_shard = ctx.scale(20, 25)
     max_states = ctx.scale(8, 10)
     dist = {"models": 0, "states": {}, "forwards": {}, "log_models": 0, "nonlinear_models": 0, "linear_flag": 0,
             "measurement": 0, "skipped": {}, "scenarios": 0, "deviation": 0, "anticipated": 0, "unanticipated": 0,
@@ -916,7 +916,7 @@ def correspondence(ctx) -> CorrResult:
     shards = [bundles[i:i + per_shard] for i in range(0, len(bundles), per_shard)]
     texts = [case_text(bs) for bs in shards]
     t1 = _time.time()
-    results = core.run_cases(ctx, texts)
+    results = core.run_cases(ctx, texts, timeout=ctx.scale(900, 2400))
     dist["seconds_implementation_side"] = round(t_impl, 1)
     dist["seconds_coq_side"] = round(_time.time() - t1, 1)
     res.shards = len(texts)
